@@ -27,7 +27,7 @@ META = {
             "under every chunking; each terminal state is emitted with the predicted transcoding and the GrepModel "
             "result stream, and replayed on the real grep-searcher (reader with scripted fragmentation x tiny roll "
             "buffer x tiny transcoding buffer, slice, file, mmap, multi-line) and on rg (--encoding, BOM sniffing, "
-            "--encoding none, mmap on/off).",
+            "--encoding none, mmap on/off). Behind a mark the generated texts may themselves begin with U+FEFF (exactly one mark is the mark).",
     "note": "Matcher abstracted to 'line contains m'. UTF-8 inputs are generated well-formed only; latin1/shift_jis "
             "decode tables are taken from encoding_rs (trusted) and only the plumbing around them is checked. "
             "Bounds in specs/search/C17_*.cfg. Hooks H1: roll-buffer capacity and transcoding scratch buffer length.",
